@@ -179,8 +179,16 @@ struct SIMDVector<double, simd_abi::avx512> {
     FASTOR_INLINE SIMDVector<double,simd_abi::avx512> reverse() {
         return _mm512_reverse_pd(value);
     }
-    // FASTOR_INLINE double minimum() {return _mm512_hmin_pd(value);}
-    // FASTOR_INLINE double maximum() {return _mm512_hmax_pd(value);}
+    FASTOR_INLINE double minimum() {
+        __m256d low  = _mm512_castpd512_pd256(value);
+        __m256d high = _mm512_extractf64x4_pd(value,1);
+        return _mm256_hmin_pd(_mm256_min_pd(low,high));
+    }
+    FASTOR_INLINE double maximum() {
+        __m256d low  = _mm512_castpd512_pd256(value);
+        __m256d high = _mm512_extractf64x4_pd(value,1);
+        return _mm256_hmax_pd(_mm256_max_pd(low,high));
+    }
 
     FASTOR_INLINE double dot(const SIMDVector<double,simd_abi::avx512> &other) {
         __m512d res =  _mm512_mul_pd(value,other.value);
